@@ -263,7 +263,11 @@ fn eval_primary_expr(
         expr::PrimaryExpr::Function(func) => eval_func_expr(func, node, context),
         expr::PrimaryExpr::Literal(literal) => Ok(literal.to_string().as_value()),
         expr::PrimaryExpr::Number(number) => Ok(number.parse::<f64>().unwrap().as_value()),
-        expr::PrimaryExpr::Variable(_) => unimplemented!("Not support `VariableReference`."),
+        expr::PrimaryExpr::Variable(name) => {
+            // no variable bindings are supported: every reference is to an unbound variable
+            let (local_part, _, _) = context.expanded_name(name)?;
+            Err(error::Error::NotFoundVariable(local_part))
+        }
     }
 }
 
